@@ -28,6 +28,9 @@ structure Drv where
   /-- relations whose construction moved a projection upstream of a deduplication by back-tracking
   (known finding F04), and everything built from them -/
   f04 : List String := []
+  /-- allocation ids of payloads attached by a `process` call that was not determinate (a hook cut or deduplicated
+  rows in an order the database chose): whatever reads them is not determinate either -/
+  tainted : List Nat := []
 deriving Inhabited
 
 namespace Drv
@@ -178,6 +181,15 @@ where
     | .mat _ _ t => hasSqlTransferAux t
     | .transfer _ _ t => t.engine.kind == .sql || hasSqlTransferAux t
     | .select _ _ _ _ _ _ _ _ t => hasSqlTransferAux t
+
+/-- Allocation ids of the payload-capable nodes of a tree. -/
+def relOids : Rel → List Nat
+  | .leaf o .. => [o]
+  | .unary _ t _ => relOids t
+  | .binary _ l r _ => relOids l ++ relOids r
+  | .mat o _ t => o :: relOids t
+  | .transfer o _ t => o :: relOids t
+  | .select o _ _ _ _ _ s _ t => o :: (relOids s ++ relOids t)
 
 /-- The tree contains a transfer out of a SQL engine (row order then depends on the database). -/
 def hasSqlTransfer : Rel → Bool
@@ -536,7 +548,7 @@ def step (d : Drv) (cmd : List Sexp) : Drv × String :=
             let univ := d.env.tags
             let again := if showRows univ rows1 == showRows univ rows2 then "same" else "diff"
             ({ d with st := { s1 with log := [] } },
-             s!"ok rows={showRows univ rows1} again={again} pulls_exec={showLog d execLog} pulls_iter1={showLog d log1} pulls_iter2={showLog d log2} order={if hasSqlTransfer r then "any" else "exact"} det={showBool (iterDet d.sigma r)}")
+             s!"ok rows={showRows univ rows1} again={again} pulls_exec={showLog d execLog} pulls_iter1={showLog d log1} pulls_iter2={showLog d log2} order={if hasSqlTransfer r then "any" else "exact"} det={showBool (iterDet d.sigma r && !((relOids r).any d.tainted.contains))}")
   -- (sem rN): reference semantics (model only; the harness uses it as the oracle)
   | [atom "sem", atom n] =>
     match d.rel? n with
@@ -736,10 +748,15 @@ def step (d : Drv) (cmd : List Sexp) : Drv × String :=
         else ({ d with st := { ps.st with payloads := ps.st.payloads.filter (fun p => p.1 < tempBase) },
                        sqlSt := { ps.sq with payloads := ps.sq.payloads.filter (fun p => p.1 < tempBase) } }, errLine e)
       | (.ok res, ps) =>
+        let before := d.st.payloads.map (·.1) ++ d.sqlSt.payloads.map (·.1)
         let d := { d with st := ps.st, sqlSt := ps.sq }
         let d := d.setDirect n (d.direct? tn)
         let d := if d.f04.contains tn then { d with f04 := n :: d.f04 } else d
         let (d, line) := d.report n (if res.isSame then "same" else "new") (.ok (res.get t))
+        -- payloads attached by a processing that was not determinate taint whatever reads them later (the ids are
+        -- those the pool uses after the new nodes have been numbered)
+        let newOids := (d.st.payloads.map (·.1) ++ d.sqlSt.payloads.map (·.1)).filter (fun o => !(before.contains o))
+        let d := { d with tainted := if ps.det then d.tainted else newOids ++ d.tainted }
         -- input tree after processing (payload marks may have changed)
         (d, line ++ " || input=" ++ (t.show d.hasPay) ++ " || hooks=" ++ " ".intercalate ps.hooks
             ++ s!" det={showBool ps.det}")
@@ -755,7 +772,8 @@ def step (d : Drv) (cmd : List Sexp) : Drv × String :=
         let ready := match conform d.store defaultFuel r with
           | .ok c => (c.get r).structReady d.sqlSt
           | .error _ => false
-        (d, s!"ok rows={showRows d.env.tags out.rows} total={showBool out.total} det={showBool out.det} ready={showBool ready}")
+        let det := out.det && !((relOids r).any d.tainted.contains)
+        (d, s!"ok rows={showRows d.env.tags out.rows} total={showBool out.total} det={showBool det} ready={showBool ready}")
   | _ => (d, "bad-command")
 where
   go (d : Drv) (n : String) (e : Engine) (cols : Cols) (rws : List (List Int)) (mn : Nat)
